@@ -60,6 +60,7 @@ def strategy(tier):
         expanding.case_strategy(tier, rot=True, max_ops=25).map(tag("exp")),
         cbloom.case_strategy(tier, max_ops=20).map(tag("cbloom")),
         cms.case_strategy(tier, classes=("cms", "hh", "st"), max_ops=20, over_remove=True).map(tag("cms")),
+        cms.case_strategy(tier, classes=("st", "st", "hh"), max_ops=30, small=True).map(tag("cms")),  # tiny colliding sketches: stale table entries
         cuckoo.case_strategy(tier, max_ops=25, allow_reload=True).map(tag("cuckoo")),
         qf.case_strategy(tier, max_ops=45).map(tag("qf")), qf.case_strategy(tier, max_ops=45).map(tag("qf")),
     )
